@@ -208,7 +208,38 @@ def run(ctx):
         if not guarded:
             rf.violate(fn.id, "filter-clause-dropped", f"an AggregateExpr is built at line {ln} without any branch on the parsed `FILTER (WHERE …)` clause: the clause is accepted by "
                        "the parser and silently ignored, `count(*) FILTER (WHERE x > 5)` counts every row", rec["file"], ln)
-    return [r, rule_valid(facts, impls), rule_simul(facts), rf]
+    return [r, rule_valid(facts, impls), rule_simul(facts), rf, rule_nanorder(facts)]
+
+
+def rule_nanorder(facts):
+    """min()/max() over floats must not depend on where a NaN shows up: with plain `<`/`>` every comparison with NaN is false, so a NaN
+    that arrives first is never replaced and one that arrives later is ignored. The replace decision of the generic min/max states has to
+    consult whether a value is unordered with respect to itself (partial_cmp(v, v) is None) - directly or through a helper."""
+    r = RuleResult("C07-NANORDER", "the replace decision of the primitive min/max aggregate states consults self-comparison (NaN) of the values", floor=4)
+    MM = "glaredb_core::functions::aggregate::builtin::minmax::"
+
+    def has_selfcmp(rec, depth=0):
+        fn = Fn(rec)
+        for c in fn.calls():
+            if c.name.endswith("partial_cmp") and len(c.args) == 2:
+                a, b = fn.origin(c.args[0], at=c.bb), fn.origin(c.args[1], at=c.bb)
+                if a[:2] == b[:2] and a[0] in ("arg", "local"):
+                    return True
+        if depth < 2:
+            for c in fn.calls():
+                if c.name.startswith(MM):
+                    sub = facts.fn(c.name)
+                    if sub is not None and has_selfcmp(sub, depth + 1):
+                        return True
+        return False
+    for rec in facts.fns_matching(lambda i: MM in i and ("MaxStatePrimitive" in i or "MinStatePrimitive" in i) and i.rsplit("::", 1)[-1] in ("update", "merge")):
+        ok = has_selfcmp(rec)
+        r.functions.add(rec["id"])
+        r.inst({"fn": rec["id"], "consults_unordered_values": ok}, ok)
+        if not ok:
+            r.violate(rec["id"], "nan-order-dependent", "the min/max replace decision uses only `<`/`>`: with float input the result depends on whether a NaN arrives before or "
+                      "after the other values (and on how partial states are merged)", rec["file"], rec["line"])
+    return r
 
 
 CLAIM = {
